@@ -120,6 +120,9 @@ func fieldOf(info *types.Info, e ast.Expr) *types.Var {
 		v, _ := s.Obj().(*types.Var)
 		return v
 	}
+	if v, ok := synthFields[sel]; ok {
+		return v
+	}
 	return nil
 }
 
@@ -128,6 +131,9 @@ func plainFieldOf(info *types.Info, e ast.Expr) *types.Var {
 	sel, ok := unparen(e).(*ast.SelectorExpr)
 	if !ok {
 		return nil
+	}
+	if v, ok := synthFields[sel]; ok {
+		return v
 	}
 	if s, ok := info.Selections[sel]; ok && s.Kind() == types.FieldVal {
 		v, _ := s.Obj().(*types.Var)
